@@ -242,7 +242,7 @@ async fn reader(ctx: Rc<Ctx>, name: &'static str, s: Rc<UdpSocket>, ops: Vec<Op>
     let fallback = Op { k: "recvfrom".into(), c: DRAIN_CAP as u64, sh: "exact".into(), ..Default::default() };
     let mut got = 0u64;
     let mut i = 0usize;
-    while got < expect {
+    while got < expect && !log.over() {
         let op = if ops.is_empty() { &fallback } else { &ops[i % ops.len()] };
         i += 1;
         if careful && !wait_readable(&s, &wdone, nw).await {
@@ -388,7 +388,7 @@ async fn reader(ctx: Rc<Ctx>, name: &'static str, s: Rc<UdpSocket>, ops: Vec<Op>
                     ($st:expr, $data:expr, $extra:expr) => {{
                         let mut st = std::pin::pin!($st);
                         let mut nobufs = 0u32;
-                        while taken < want {
+                        while taken < want && !log.over() {
                             match timeout(STEP_TIMEOUT, st.next()).await {
                                 Ok(Some(Ok(item))) => {
                                     let data: &[u8] = $data(&item);
